@@ -63,7 +63,7 @@ pub async fn run(seed: u64, sched: Rc<Sched>, keep_log: bool) -> (CaseResult, Ve
     pb.tx.lock().unwrap().keep_wire = true;
     let dirs = [pa.tx.clone(), pb.tx.clone()]; // dirs[s] = what side s sends
     // Configurations (tiny, so the limits bind).
-    let mk_cfg = |rng: &mut rand_chacha::ChaCha8Rng| {
+    let mk_cfg = |rng: &mut crate::kit::SimRng| {
         let frame = [1u64, 2, 7, 64, 1000][rng.gen_range(0..5)];
         let buffer = frame * [1u64, 2, 5, 50][rng.gen_range(0..4)];
         let count = [1u64, 2, 5, 100][rng.gen_range(0..4)];
